@@ -7,9 +7,6 @@ namespace Iface
 
 /-! ## a signature default on its way back -/
 
-/-- the user-level default of an entry -/
-def userD (p : Param) : Option Default := match p.default with | some (.val d) => some d | _ => none
-
 /-- what the function format turns a default into: absent ↦ `None` (the statement's normalisation) -/
 def fnBack (d? : Option Default) : Default :=
   match d? with
